@@ -7,6 +7,7 @@ CONSTANTS
   NSet <- NSetA
   MaxIts <- MaxItsA
   TdMasks <- AllMasks
+  Boxes <- NoBoxes
   InitSel <- InitAll
   SThr <- SThrHalf
   DFree = FALSE
